@@ -332,7 +332,35 @@ impl<CharIter: Iterator<Item = char>> Lexer<CharIter> {
                                             '"' => string_literal.push('"'),
                                             '\\' => string_literal.push('\\'),
                                             '|' => string_literal.push('|'),
-                                            'x' => (), // TODO: 'x' for hex value
+                                            'x' => {
+                                                // \x<hex scalar value>;
+                                                let mut hex = String::new();
+                                                loop {
+                                                    match self.advance(1).take() {
+                                                        Some(';') => break,
+                                                        Some(digit) => hex.push(digit),
+                                                        None => {
+                                                            return located_error!(
+                                                                SyntaxError::UnexpectedEnd,
+                                                                Some(self.location)
+                                                            )
+                                                        }
+                                                    }
+                                                }
+                                                match Some(&hex)
+                                                    .filter(|h| h.chars().all(|c| c.is_ascii_hexdigit()))
+                                                    .and_then(|h| u32::from_str_radix(h, 16).ok())
+                                                    .and_then(std::char::from_u32)
+                                                {
+                                                    Some(c) => string_literal.push(c),
+                                                    None => {
+                                                        return located_error!(
+                                                            SyntaxError::UnknownEscape('x'),
+                                                            Some(self.location)
+                                                        )
+                                                    }
+                                                }
+                                            }
                                             ' ' => (), // TODO: space for nothing
                                             other => {
                                                 return located_error!(
